@@ -453,6 +453,7 @@ package headers
 //@     invariant forall(i, 0, len(result), locEntry(b, splits, result[i]))
 //@     invariant len(result) == 0 ==> previousHeight == -1 && height == tipH(b) - 1
 //@     invariant len(result) > 0 ==> firstBelowTip(b, result[0])
+//@     invariant [C19.stops-at-max] len(result) == 0 || len(result) < max
 //@   loop 2
 //@     modifies elems(splitAdded), elems(result)
 //@     invariant (-1 <= rangeindex && rangeindex < len(splits)) || (len(splits) == 0 && rangeindex == -1)
